@@ -11,7 +11,7 @@ PER_BATCH = {'quick': 600, 'thorough': 9000}
 FLOORS = {
     'quick': {'distinct_nontrivial': 1500, 'round-trips': 5000, 'grammars-in-class': 500, 'feature:filtered-token-reinserted': 3000,
               'feature:inlined-rule-matched': 800, 'feature:expand1-rule-matched': 800, 'feature:alias': 1000, 'feature:repetition': 1500,
-              'feature:bang-rule': 300, 'feature:parser:lalr': 2000, 'feature:parser:earley': 1000, 'template-class': 16},
+              'feature:bang-rule': 300, 'feature:parser:lalr': 2000, 'feature:parser:earley': 1000, 'template-class': 16, 'calc-corpus': 1, 'nested-corpus': 1},
     'thorough-unused': {'distinct_nontrivial': 25000, 'round-trips': 80000, 'grammars-in-class': 8000},
 }
 RULE = ("cases = (grammar generated inside the supported class, parser in {lalr, earley}, accepted input): EBNF grammars with "
@@ -82,10 +82,62 @@ def without_expand1(G):
     return G2
 
 
-def expand1_explains(ctx, G, parser, w):
-    """F-C19-2 classifier: does the same round trip succeed once every ? modifier is removed from the grammar?"""
+def expand1_misjudged(rules):
+    """Static part of the F-C19-2 classifier, on lark's compiled rules: the alternatives of ?-rules on which the tree
+    matcher's decision 'this alternative leaves no node of its own iff it has exactly one unfiltered symbol' is wrong
+    (or cannot be made): the symbol is an inlined rule / repetition helper that may contribute 0 or >=2 children, several
+    symbols may together contribute a single child, or the alternative is the self-reference the matcher skips.
+    An empty result means that every ?-rule of the grammar is of the simple kind the matcher handles by design, and a
+    failure there is not this finding."""
+    INF = 3
+    inl = {r.origin for r in rules if r.origin.name.startswith('_')}
+
+    def kept(r):
+        return [s for s in r.expansion if not (s.is_term and s.filter_out)]
+    lo = {o: INF for o in inl}
+    hi = {o: 0 for o in inl}
+    for _ in range(len(rules) + 2):
+        changed = False
+        for r in rules:
+            if r.origin not in inl:
+                continue
+            l = min(INF, sum(lo[s] if s in inl else 1 for s in kept(r)))
+            h = min(INF, sum(hi[s] if s in inl else 1 for s in kept(r)))
+            if l < lo[r.origin]:
+                lo[r.origin] = l
+                changed = True
+            if h > hi[r.origin]:
+                hi[r.origin] = h
+                changed = True
+        if not changed:
+            break
+    bad = []
+    for r in rules:
+        if not r.options.expand1 or r.alias:
+            continue
+        K = kept(r)
+        if K == [r.origin]:
+            bad.append(r)
+            continue
+        l = sum(lo[s] if s in inl else 1 for s in K)
+        h = sum(hi[s] if s in inl else 1 for s in K)
+        if len(K) == 1:
+            ok = l == h == 1
+        else:
+            ok = l >= 2 or h == 0
+        if not ok:
+            bad.append(r)
+    return bad
+
+
+def expand1_explains(ctx, G, parser, w, rules=None):
+    """F-C19-2 classifier: the grammar has a ?-alternative the matcher misjudges (see expand1_misjudged) and the same
+    round trip succeeds once every ? modifier is removed from the grammar"""
     from lark.reconstruct import Reconstructor
     if not any('?' in r.get('mods', '') for r in G['rules']):
+        return False
+    if rules is not None and not expand1_misjudged(rules):
+        ctx.count('expand1-all-simple:failure-not-attributed-to-F-C19-2')
         return False
     kw = dict(parser=parser, maybe_placeholders=False)
     if parser == 'earley':
@@ -198,7 +250,7 @@ def run_grammar(ctx, G, rng, texts, only_parser=None):
                         fid = 'F-C19-2'
                     elif m and has_template and any(x.get('params') and x['name'] == (m.group(1) or m.group(2)) for x in G['rules']):
                         fid = 'F-C19-1'
-                if fid is None and expand1_explains(ctx, G, parser, w):
+                if fid is None and expand1_explains(ctx, G, parser, w, p.rules):
                     fid = 'F-C19-2'
                 ctx.violation('reconstruct-raises:%s' % parser, case, {'exc': r[1], 'tree': ct}, fid)
                 continue
@@ -215,7 +267,7 @@ def run_grammar(ctx, G, rng, texts, only_parser=None):
             t2 = call(ctx, 'parse', p.parse, s, raw=True)
             # F-C19-3: ?start was replaced by its only child, so the tree handed to reconstruct() is not a start tree
             fid3 = 'F-C19-3' if root_lost else None
-            if fid3 is None and (t2[0] != 'ok' or canon_tree(t2[1]) != ct) and expand1_explains(ctx, G, parser, w):
+            if fid3 is None and (t2[0] != 'ok' or canon_tree(t2[1]) != ct) and expand1_explains(ctx, G, parser, w, p.rules):
                 fid3 = 'F-C19-2'
             if t2[0] != 'ok':
                 ctx.violation('reconstructed-text-is-rejected:%s' % parser, case, {'reconstructed': s, 'exc': t2[1]}, fid3)
@@ -243,7 +295,7 @@ def sentences(rng, G, n):
 
 
 def gen_grammar(rng, templates=False):
-    G = gen.ebnf(rng, n_rules=rng.randint(2, 4), p_ignore=1.0, allow_templates=templates, p_rec=0.1,
+    G = gen.ebnf(rng, n_rules=rng.randint(2, 4), p_ignore=1.0, allow_templates=templates, p_rec=rng.choice([0.1, 0.1, 0.3]),
                  mods_pool=('', '', '', '?', '?', '!', '?!'))
     # multi-digit numbers: adjacent tokens must be separated by the reconstructor
     for t in G['terms']:
@@ -278,14 +330,33 @@ def _calc_with_calls():
         'ignore': ['WS'], 'start': ['start'], 'alphabet': list('7xf+*(),;[]| ')}
 
 
+def _nested():
+    """ordinary rules whose only child can be a node of the same rule, wrapped in filtered tokens"""
+    L, r, a = gen.LIT, gen.rule, gen.alt
+    star = lambda it: ['q', it, '*', 0, 0]
+    return {'rules': [
+        r('start', [a([['q', ['g', [a([['r', 'lst']]), a([['r', 'block']])]], '+', 0, 0]])]),
+        r('lst', [a([L('['), ['r', '_items'], L(']')])]),
+        r('_items', [a([['r', 'item'], star(['g', [a([L(','), ['r', 'item']])]])])]),
+        r('item', [a([['t', 'N']]), a([['r', 'lst']])], mods='?'),
+        r('block', [a([L('{'), ['q', ['r', 'stmt'], '+', 0, 0], L('}')])]),
+        r('stmt', [a([['t', 'X'], L(';')], 'name'), a([['r', 'block']])], mods='?')],
+        'terms': [gen.term('N', ['x', '[0-9]+', ''], ex=['7', '42']), gen.term('X', ['x', '[a-z]+', ''], ex=['x', 'f']), gen.term('WS', ['x', ' +', ''], ex=[' '])],
+        'ignore': ['WS'], 'start': ['start'], 'alphabet': list('7x[]{},; ')}
+
+
 def run_batch(ctx):
     rng = ctx.rng
     from .c13 import RICH
     from .c08 import ws_variant
     run_grammar(ctx, TEMPLATE_G, rng, ['[a]', '[a, a] [a:b]', '[a,a,a][a:b,a:b]'])
+    if ctx.batch == 1:
+        run_grammar(ctx, _nested(), rng, ['[7]', '[[7, 42]]', '[7, [42, 7]]', '[[7], [42]]', '[[[7]]]', '{x;}', '{{x; f;}}', '{x; {f;}}', '{{{x;}}}', '[[7]] {{x;}}'])
+        ctx.count('nested-corpus')
     if ctx.batch == 0:
         # operator chains of ?-rules next to rules with same-shaped alternatives and other literals, reconstructed in sequence
-        run_grammar(ctx, _calc_with_calls(), rng, ['x*x+7;', 'f(x,x,7);', 'x*x+7; f(x,x,7);', '[x|x|7] x+x*x; f(7);', 'f(x+7,x*x); [x*x|7+7];', 'f(x,x,x,x);', '[7|7|7];'])
+        run_grammar(ctx, _calc_with_calls(), rng, ['x*x+7;', 'f(x,x,7);', 'x*x+7; f(x,x,7);', '[x|x|7] x+x*x; f(7);', 'f(x+7,x*x); [x*x|7+7];', 'f(x,x,x,x);', '[7|7|7];',
+                                                   '(x+7)*x;', 'x*(x+(7));', 'f((x),(x+x)*7);', '((7));'])
         ctx.count('calc-corpus')
     for i in range(PER_BATCH[ctx.tier]):
         if not ctx.time_left():
